@@ -355,6 +355,28 @@ def main(tier):
                  (at_create, later))
     red.set_loky_pickler(None)
 
+    # ---- (4b) the LOKY_PICKLER environment variable selects the default pickler (read at
+    # import), set_loky_pickler(None) returns to it
+    import os as _os
+    import subprocess as _sp
+    import sys as _sys
+    probe = ("from loky.backend import reduction as r; a = r.get_loky_pickler_name(); "
+             "r.set_loky_pickler('pickle'); b = r.get_loky_pickler_name(); "
+             "r.set_loky_pickler(None); c = r.get_loky_pickler_name(); print('PICKLERS', a, b, c)")
+    for val, exp in [(None, "cloudpickle"), ("", "cloudpickle"), ("cloudpickle", "cloudpickle"),
+                     ("pickle", "pickle")]:
+        n += 1
+        env = dict(_os.environ, PYTHONPATH=common.REPO)
+        env.pop("LOKY_PICKLER", None)
+        if val is not None:
+            env["LOKY_PICKLER"] = val
+        r_ = _sp.run([_sys.executable, "-c", probe], env=env, capture_output=True, text=True, timeout=60)
+        got = [l.split()[1:] for l in r_.stdout.splitlines() if l.startswith("PICKLERS")]
+        if got != [[exp, "pickle", exp]]:
+            viol(f"env-default-pickler:{val}", f"LOKY_PICKLER={val!r}: default / after "
+                 f"set_loky_pickler('pickle') / after set_loky_pickler(None) = {got}, expected "
+                 f"{[exp, 'pickle', exp]} {r_.stderr[-200:]}", (val,))
+
     # ---- (5) on real processes: pickler at submit time == pickler the worker uses ------------
     from ..real import runner
     r = runner.run("pickler_at_submit", {}, None, timeout=90)
